@@ -98,6 +98,8 @@ def run(ctx):
                         for pr in c04.classify(rs[0]["case"], vs[0][4]):
                             conv_known = conv_known or next((f for f in common.load_findings("C04")
                                                              if f["match"]["predicate"] == pr and f["match"]["signature"] in ("*", vs[0][3])), None)
+                    if "metrics_partitioned_index_math" in tags and vs[0][3] == "out-of-extent-only":
+                        conv_known = True               # C04-interval-not-clipped, in a metrics-mode convolution of G7
                     if bad or conv_known:
                         ctx.stat("known_bad_class_skipped"); ctx.oblig -= 1
                     else:
